@@ -55,7 +55,7 @@ JudgeFile(e) ==
 
 Untouched(s) == \A r \in DOMAIN s : s[r] = "-"
 HeaderOk(hdr, aa, sel) ==      \* judged only when martinize2 wrote the line: classes of the selected molecules in system order
-  hdr = <<"-">> \/ hdr = R!Flat(SelectSeq([i \in DOMAIN aa |-> IF sel[i] THEN aa[i] ELSE <<>>], LAMBDA s : TRUE))
+  hdr = <<"-">> \/ hdr = R!Flat([i \in DOMAIN aa |-> IF sel[i] THEN aa[i] ELSE <<>>])
 
 JudgeDssp(e) ==
   IF R!UnspecifiedRoute(e.mols, e.plan) THEN "unspecified-input-generated"
